@@ -237,7 +237,7 @@ func copyRegularFile(src, dst string, perm os.FileMode) error {
 
 	dstFile, err := os.OpenFile(dst, os.O_RDWR|os.O_CREATE|os.O_TRUNC, perm)
 	if os.IsNotExist(err) {
-		return NewHTTPError(http.StatusConflict, err)
+		return NewHTTPError(http.StatusConflict, errFromOS(err))
 	} else if err != nil {
 		return errFromOS(err)
 	}
@@ -313,7 +313,7 @@ func (fs LocalFileSystem) Copy(ctx context.Context, src, dst string, options *Co
 
 	err = filepath.Walk(srcPath, func(p string, fi os.FileInfo, err error) error {
 		if err != nil {
-			return err
+			return errFromOS(err)
 		}
 
 		// Map each visited entry to its own path below the destination
@@ -324,7 +324,9 @@ func (fs LocalFileSystem) Copy(ctx context.Context, src, dst string, options *Co
 		dp := filepath.Join(dstPath, rel)
 
 		if fi.IsDir() {
-			if err := os.Mkdir(dp, srcPerm); err != nil {
+			if err := os.Mkdir(dp, srcPerm); os.IsNotExist(err) {
+				return NewHTTPError(http.StatusConflict, errFromOS(err))
+			} else if err != nil {
 				return errFromOS(err)
 			}
 		} else {
@@ -339,7 +341,9 @@ func (fs LocalFileSystem) Copy(ctx context.Context, src, dst string, options *Co
 		return nil
 	})
 	if err != nil {
-		return false, errFromOS(err)
+		// Already converted in the callback; converting again would turn
+		// the 409 for a missing destination parent into a 404
+		return false, err
 	}
 
 	return created, nil
@@ -377,7 +381,10 @@ func (fs LocalFileSystem) Move(ctx context.Context, src, dst string, options *Mo
 		}
 	}
 
-	if err := os.Rename(srcPath, dstPath); err != nil {
+	if err := os.Rename(srcPath, dstPath); os.IsNotExist(err) {
+		// The source exists, so the destination's parent is missing
+		return false, NewHTTPError(http.StatusConflict, errFromOS(err))
+	} else if err != nil {
 		return false, errFromOS(err)
 	}
 
